@@ -485,7 +485,10 @@ def run(prog, tier, seed):
         c01.own_rules(prog, tier, T) + c02.own_rules(prog, tier, T) +
         T.results(T(c12.rule_scc, prog), T(c12.rule_scc6, prog),
                   T(c05.rule_rw3, prog),
-                  T(c07.rule_pure4, prog, T(c07.effects, prog))),
+                  T(c07.rule_pure4, prog, T(c07.effects, prog)),
+                  # a formula object must still be the caller's formula
+                  # when it is checked a second time
+                  T(c07.rule_pure3, prog, T(c07.effects, prog))),
         PROP, 'relied on by the CTL* procedure')
     return T.results(r1, r2, r3, r4, r5) + dep, expl, assumptions, \
         T.extra()
